@@ -147,7 +147,7 @@ Definition raw_array (cplx : bool) (re im : list (list Q)) : fmat :=
   fun i j => (nth j (nth i re []) 0 - (1 # 2),
               if cplx then nth j (nth i im []) 0 - (1 # 2) else 0).
 
-Definition tiny : Q := 5 # 10000000000000.        (* 5e-13 *)
+Definition tiny : Q := 4951760157141521 # 9903520314283042199192993792.   (* the float 5e-13, exactly *)
 Definition cabs_lt (z : C) (t : Q) : bool := Qltb (cnormsq z) (t * t).
 
 (* ArraySamplingSet.normalize (matrixsampling.py:143-151): array * desired_norm / actual_norm *)
@@ -263,6 +263,7 @@ Definition identity_multiple (scaling : C) : fmat := mscale scaling meye.
 (* ------------------------------------------------------------------------------------------ *)
 (* property predicates (decidable versions used on case data)                                 *)
 (* ------------------------------------------------------------------------------------------ *)
+
 Definition forall2b (n m : nat) (p : nat -> nat -> bool) : bool :=
   forallb (fun i => forallb (fun j => p i j) (seq 0 m)) (seq 0 n).
 
@@ -275,3 +276,41 @@ Definition has_symmetry_b (sym : symm) (n : nat) (M : fmat) : bool :=
   | SHerm => forall2b n n (fun i j => ceqb (M i j) (cconj (M j i)))
   | SAHerm => forall2b n n (fun i j => ceqb (M i j) (copp (cconj (M j i))))
   end.
+
+(* ------------------------------------------------------------------------------------------ *)
+(* fast determinant for case evaluation: clear denominators, expand over Gaussian integers      *)
+(* (Proofs/SamplerDet.v: fast_det n W = Some d -> d = mdet n W)                                 *)
+(* ------------------------------------------------------------------------------------------ *)
+
+Definition zc : Type := (Z * Z)%type.
+Definition zc_add (a b : zc) : zc := ((fst a + fst b)%Z, (snd a + snd b)%Z).
+Definition zc_opp (a : zc) : zc := ((- fst a)%Z, (- snd a)%Z).
+Definition zc_mul (a b : zc) : zc := ((fst a * fst b - snd a * snd b)%Z, (fst a * snd b + snd a * fst b)%Z).
+Definition zc_embed (a : zc) : C := (inject_Z (fst a), inject_Z (snd a)).
+Fixpoint zsum (n : nat) (f : nat -> zc) : zc :=
+  match n with O => (0, 0)%Z | S k => zc_add (zsum k f) (f k) end.
+Definition zalt (j : nat) (z : zc) : zc := if Nat.even j then z else zc_opp z.
+Definition zminor (A : nat -> nat -> zc) (k : nat) : nat -> nat -> zc :=
+  fun a b => A (S a) (if Nat.ltb b k then b else S b).
+Fixpoint zdet (n : nat) (A : nat -> nat -> zc) : zc :=
+  match n with
+  | O => (1, 0)%Z
+  | S k => zsum (S k) (fun j => zalt j (zc_mul (A 0%nat j) (zdet k (zminor A j))))
+  end.
+
+Definition pos_lcm (a b : positive) : positive := Z.to_pos (Z.lcm (Zpos a) (Zpos b)).
+Definition common_den (n : nat) (W : fmat) : positive :=
+  fold_right (fun i acc => fold_right (fun j acc' =>
+      pos_lcm (Qden (fst (W i j))) (pos_lcm (Qden (snd (W i j))) acc')) acc (seq 0 n)) 1%positive (seq 0 n).
+Definition to_zc (D : positive) (z : C) : zc :=
+  ((Qnum (fst z) * (Zpos D / Zpos (Qden (fst z))))%Z, (Qnum (snd z) * (Zpos D / Zpos (Qden (snd z))))%Z).
+Definition zrows (n : nat) (D : positive) (W : fmat) : list (list zc) :=
+  map (fun i => map (fun j => to_zc D (W i j)) (seq 0 n)) (seq 0 n).
+Definition of_zrows (l : list (list zc)) : nat -> nat -> zc := fun i j => nth j (nth i l []) (0, 0)%Z.
+Definition zdet_of (n : nat) (D : positive) (Zm : nat -> nat -> zc) : C :=
+  cmul (cpow (cofQ (1 # D)) n) (zc_embed (zdet n Zm)).
+Definition fast_det (n : nat) (W : fmat) : option C :=
+  let D := common_den n W in
+  let Zm := of_zrows (zrows n D W) in
+  if forall2b n n (fun i j => ceqb (W i j) (cmul (cofQ (1 # D)) (zc_embed (Zm i j))))
+  then Some (cred (zdet_of n D Zm)) else None.
